@@ -341,6 +341,7 @@ pub fn scenario(name: &str, params: &Value) -> Scenario {
                 payload_len += size - l;
             }
         }
+        let pkt_len = pkt.encode().len();
         seq.push(pkt);
         seq.push(inbound(1, false, 3, &[sid], "tail"));
         let mut bytes = vec![];
@@ -351,7 +352,7 @@ pub fn scenario(name: &str, params: &Value) -> Scenario {
         }
         let n = bytes.len();
         let pending_between = chz.choose(2) == 1;
-        let family = if huge { 1 } else { chz.choose(3) };
+        let family = if huge { [1, 3][chz.choose(2)] } else { chz.choose(3) };
         let cuts: Vec<usize> = match family {
             0 => {
                 // every single cut position (long packets: all positions near the interesting
@@ -379,7 +380,8 @@ pub fn scenario(name: &str, params: &Value) -> Scenario {
                     .chain((1..=(n / 512).min(6)).map(|k| k * 512))
                     .collect();
                 for a in anchors {
-                    for d in -3i64..=3 {
+                    // (the fixed header of a packet with a four-byte remaining length is five bytes long)
+                    for d in -3i64..=(if huge { 7 } else { 3 }) {
                         let o = a as i64 + d;
                         if o >= 1 && (o as usize) < n && !near.contains(&(o as usize)) {
                             near.push(o as usize);
@@ -393,6 +395,12 @@ pub fn scenario(name: &str, params: &Value) -> Scenario {
                 c.sort();
                 c.dedup();
                 c
+            }
+            3 => {
+                // the first bytes of the long packet (type byte, every byte of its remaining length,
+                // the first bytes of the body) in reads of one byte each
+                let start = packets[packets.len() - 2].0 - pkt_len;
+                (start + 1..=start + 8).collect()
             }
             _ => {
                 let mut chunks: Vec<usize> = (1..=40).collect();
